@@ -43,6 +43,17 @@ fn main() {
                 },
                 Profile { steps: 60, comps: vec!["A", "B"], vis: true, marks: false, ..Default::default() },
             ),
+            "events" | "events_custom" => (
+                Cfg {
+                    ents: vec!["e1".into(), "e2".into()],
+                    clients: clients(2),
+                    max_size: vec![1200; 2],
+                    events: true,
+                    auth: if profile == "events" { "none".into() } else { "custom".into() },
+                    ..Default::default()
+                },
+                Profile { steps: 70, comps: vec!["A"], marks: false, events: true, sess: profile == "events", ..Default::default() },
+            ),
             "sess" => (
                 Cfg { ents: three(), ..Default::default() },
                 Profile { steps: 50, comps: vec!["A", "B"], sess: true, ..Default::default() },
